@@ -61,17 +61,38 @@ pub fn probe_all(text: &str, real_preprocess: bool) -> Vec<(&'static str, String
             if let Err(p) = catch(|| DATA.with(|d| d.parse(vm, &mut ctr, piece).map_err(|_| ()))) {
                 out.push(("data-loader", p));
             }
-            benign(vm);
-            let mut ictx = probe_ictx();
-            let mut reps = 0;
-            loop {
-                match step(vm, &mut ictx, 0, piece) {
-                    StepOut::Panic(p) => {
-                        out.push(("interpreter", p));
-                        break;
+            // "for every string given directly to the interpreter": in a benign machine state and in two hostile ones
+            // (every register at its extreme, the most negative dividend with divisor -1, segments at the top)
+            for st in 0..3 {
+                match st {
+                    0 => benign(vm),
+                    1 => {
+                        let mut r = Regs::default();
+                        r.r = [0x8000, 0xFFFF, 0xFFFF, 0x8000, 0x0001, 0xFFFF, 0xFFFF, 0xFFFF, 0xFFFF, 0xFFFF, 0xFFFF, 0xFFFF, 0xFEFF, 0];
+                        load(vm, &r);
                     }
-                    StepOut::State(St::Repeat) if reps < 4 => reps += 1,
-                    _ => break,
+                    _ => {
+                        let mut r = Regs::default();
+                        r.r = [0x0080, 0x00FF, 0x0000, 0xFFFF, 0xFFFF, 0x0000, 0xFFFE, 0x0001, 0x0000, 0xF001, 0xFFF0, 0x0000, 0x0000, 0];
+                        load(vm, &r);
+                    }
+                }
+                let mut ictx = probe_ictx();
+                let mut reps = 0;
+                let mut panicked = false;
+                loop {
+                    match step(vm, &mut ictx, 0, piece) {
+                        StepOut::Panic(p) => {
+                            out.push(("interpreter", p));
+                            panicked = true;
+                            break;
+                        }
+                        StepOut::State(St::Repeat) if reps < 4 => reps += 1,
+                        _ => break,
+                    }
+                }
+                if panicked {
+                    break;
                 }
             }
             benign(vm);
